@@ -75,7 +75,7 @@ def main(argv=None):
             problems.append(("load", "load/%s" % cfgname, "cannot load /repo with tags %s: %s" % (tags, e), None))
             continue
         contract_src = V.contracts_source
-        wanted = pm["functions"]
+        wanted = list(pm["functions"]) + (list(pm.get("functions_thorough_extra", [])) if tier == "thorough" else [])
         have = {V.display_name(f): f for f in V.functions_with_contracts()}
         variants = {}
         for f_ in V.prog.funcs.values():
